@@ -22,7 +22,8 @@ type PairCase struct {
 	CliComp   string `json:"cliComp"` // none | first
 	CliScheme string `json:"cliScheme"`
 	CliCred   string `json:"cliCred"`
-	CliTLS    bool   `json:"cliTls"` // the client transport has a TLS configuration
+	CliTLS    bool   `json:"cliTls"`          // the client transport has a TLS configuration
+	Trace     string `json:"trace,omitempty"` // which TCP ends have a trace writer configured: "" | server | client | both
 }
 
 type CliAuthCall struct {
@@ -109,6 +110,18 @@ func RunPair(c *PairCase) *PairObs {
 	}
 	if c.CliTLS {
 		cliTCP = &lime.TCPConfig{TLSConfig: ccfg}
+	}
+	if c.Trace == "server" || c.Trace == "both" {
+		if srvTCP == nil {
+			srvTCP = &lime.TCPConfig{}
+		}
+		srvTCP.TraceWriter = NewCountingTrace()
+	}
+	if c.Trace == "client" || c.Trace == "both" {
+		if cliTCP == nil {
+			cliTCP = &lime.TCPConfig{}
+		}
+		cliTCP.TraceWriter = NewCountingTrace()
 	}
 	var cl, sv *FConn
 	if c.Srv.Transport == "inproc" {
